@@ -13,6 +13,9 @@ must answer `NeedsMoreInput|Success`; then `finish = Success`); `pieces_prefix` 
 -/
 import BV.Lemmas.MultiSound
 import BV.Lemmas.MultiBound
+import BV.Lemmas.MultiSplice
+import BV.Lemmas.MultiJobBound
+import BV.Props.C13
 
 namespace BV.Props.C02
 open BV.Multi BV.Multi.Res BV.Lemmas.Multi
@@ -263,42 +266,201 @@ example : dictPlan 5000 13 1 = ⟨false, 0, 0⟩ ∧ dictPlan 15000 13 6 = ⟨tr
 
 /-! ## 7. a sufficiently large buffer -/
 
-/-- `multi_succeeds_when_sized` — PARTIAL.
-Full statement: with `|out| ≥ BrotliEncoderMaxCompressedSizeMulti(n, t)` and quality ≥ 2 the
-call returns `Ok`.
-Proved: (a) the arithmetic — if job 0 is at most `c0` and every other job at most `ci` bytes
-longer than `piece + 4·(piece ≫ 14)` with `c0 + ci·(t−1) + 1 ≤ 22 + 8t`, then all job outputs
-together + 1 fit the advertised bound (no wrap-around below 2^62); (b) the reduction — every
-spawner then returns `Ok` with the reference splice, PROVIDED the concatenator accepts these
-members whenever it is given room for all their bytes + 1 (`hroom`: the members are
-well-formed catable streams, C03, and splicing never lengthens, which is checked on every run
-— `splice_room.checked`, signature `multi:assumption:splice-expands` — but not proved here).
-Missing for the full statement: `hroom` as a theorem about the concatenator model, and the
-per-job bounds as a theorem about the encoder (C08 gives `piece + 4·(piece≫14) + 22` per
-job; the harness records the observed slack at quality ≥ 2 (thorough tier, 2 × 6400 cases):
-≤ 10 for catable jobs, ≤ 9 for job 0, ≤ 18 for job 0 with the magic header — so (a) applies as
-it stands with (c0, ci) = (18, 10) for t ≤ 6; above that the bytes saved at every joint (one
-window field and one end marker stripped) have to be accounted for, which (a) does not do.
-On the real code the bound was never exceeded (search oracle `multi:sized-not-ok`; worst case
-probed: 16 threads × incompressible 16 KiB-aligned pieces, 62 bytes of margin left). -/
-theorem multi_succeeds_when_sized_partial (sp : Spawner) (t n cap c0 ci : Nat) (jobs : Nat → JobRes)
-    (bs : List (List Nat)) (ht : 1 ≤ t) (hp : sp = .pool → t ≤ BV.Gen.MAX_THREADS) (hn : n < 2 ^ 62) (hn0 : 0 < n)
-    (hlen : bs.length = t) (hj : ∀ i b, bs[i]? = some b → jobs i = .ok b)
-    (hc : c0 + ci * (t - 1) + 1 ≤ 22 + 8 * t)
-    (h0 : (bs.getD 0 []).length ≤ piece t n 0 + 4 * (piece t n 0 / 16384) + c0)
-    (hi : ∀ i, 0 < i → i < t → (bs.getD i []).length ≤ piece t n i + 4 * (piece t n i / 16384) + ci)
-    (hroom : ∀ cap', sumTo (fun i => (bs.getD i []).length) t + 1 ≤ cap' → (spliceAll cap' bs).isSome = true)
+/-- `multi_succeeds_when_sized` — FULL (no run-time-checked assumption).
+Job outputs: `m₀` (job 0) and `dᵢ.m` (job i ≥ 1), well-formed in the sense of lean-concat's
+`concat_bits` (C03): `m₀` has a parsable window field, more bytes than the concatenator's
+look-ahead and ends with its end marker; every later output is `MemberOK` behind `m₀`'s header
+(window not larger, same header form, first meta-block header inside the look-ahead — the
+catable prelude —, end marker in its last two bytes).  Size: job 0 is at most `c0`, every other
+job at most `ci` bytes longer than `piece + 4·(piece ≫ 14)`, with `c0 + ci·(t−1) ≤ 22 + 8t`.
+Then for every spawner, `|out| ≥ BrotliEncoderMaxCompressedSizeMulti(n, t)` implies `Ok(k)`:
+no concatenator call answers `NeedsMoreOutput`, `finish` answers `Success`, `k` is at most the
+advertised bound and the output, as a bit string, is the closed form of `concat_bits` (only the
+last end marker survives, every later window field is gone).
+How: `splice_sized` — every complete run of a member emits a number of bytes fixed by the closed
+forms of C03/C12, at most the member's own length (the two tail bytes of its predecessor and its
+first `⌈v/8⌉` bytes become at most `⌈v/8⌉ + 2` bytes: joints never lengthen, and they shorten
+only by 0 or 1 byte, which is why the bits stripped at the joints cannot pay for larger per-job
+slacks); a single call that stalled would already have written more than that
+(`stream_growth` makes its retry complete). -/
+theorem multi_succeeds_when_sized (sp : Spawner) (t n cap c0 ci : Nat) (jobs : Nat → JobRes)
+    (m0 pre0 : List Nat) (a0 b0 n0 D0 wsz0 wo0 : Nat) (ds : List BV.Concat.MemberData)
+    (ht : 1 ≤ t) (hp : sp = .pool → t ≤ BV.Gen.MAX_THREADS) (hn : n < 2 ^ 62) (hn0 : 0 < n)
+    (hlen : ds.length + 1 = t) (hj0 : jobs 0 = .ok m0) (hji : ∀ i d, ds[i]? = some d → jobs (i + 1) = .ok d.m)
+    (hbytes : ∀ y, y ∈ m0 → y < 256) (hlong : BV.Concat.need (m0.headD 0) + 1 ≤ m0.length)
+    (hparse : BV.Concat.parseWindowSize (m0.take (BV.Concat.need (m0.headD 0))) = .ok (some (wsz0, wo0)))
+    (hm0 : m0 = pre0 ++ [a0, b0]) (hmark : BV.Concat.Marked (a0 + (b0 <<< 8)) n0 D0)
+    (hok : ∀ d, d ∈ ds → BV.Concat.MemberOK (wsz0 ||| (if wo0 = 14 then BV.Concat.LARGE_WINDOW_FLAG else 0)) d)
+    (hc : c0 + ci * (t - 1) ≤ 22 + 8 * t)
+    (h0 : m0.length ≤ piece t n 0 + 4 * (piece t n 0 / 16384) + c0)
+    (hi : ∀ i d, ds[i]? = some d → d.m.length ≤ piece t n (i + 1) + 4 * (piece t n (i + 1) / 16384) + ci)
     (hcap : maxCompressedSizeMulti n t ≤ cap) :
-    ∃ out, compressMulti sp t jobs cap = ok ⟨.ok out.length, out, true⟩ ∧ spliceAll cap bs = some out := by
-  have hsum := sized_arith t n c0 ci (fun i => (bs.getD i []).length) (by omega) hn hn0 hc h0 hi
-  have := hroom cap (by omega)
-  obtain ⟨out, hout⟩ := Option.isSome_iff_exists.mp this
-  exact ⟨out, multi_ok_complete sp t jobs cap bs out ht hp hlen hj hout, hout⟩
+    ∃ out, compressMulti sp t jobs cap = ok ⟨.ok out.length, out, true⟩ ∧
+      out.length ≤ maxCompressedSizeMulti n t ∧
+      BV.Concat.bytesToBits out = BV.Concat.bytesToBits pre0 ++ BV.Concat.bitsOf n0 D0 ++ BV.Concat.laterBits n0 ds
+        ++ [true, true] ++ List.replicate (14 - BV.Concat.lastN n0 ds) false := by
+  -- the members as a list, and their total length against the bound
+  have hbl : (m0 :: ds.map fun d => d.m).length = t := by simp; omega
+  have hget : ∀ i, 0 < i → i < t → ∃ d, ds[i - 1]? = some d ∧ (m0 :: ds.map fun d => d.m).getD i [] = d.m := by
+    intro i hi0 hit
+    have hlt : i - 1 < ds.length := by omega
+    refine ⟨ds[i - 1], List.getElem?_eq_getElem hlt, ?_⟩
+    obtain ⟨j, rfl⟩ : ∃ j, i = j + 1 := ⟨i - 1, by omega⟩
+    have hlt' : j < ds.length := by omega
+    simp [List.getD_eq_getElem?_getD, List.getElem?_eq_getElem hlt']
+  have hsum := sized_arith' t n c0 ci (fun i => ((m0 :: ds.map fun d => d.m).getD i []).length) (by omega) hn hn0 hc
+    (by simpa using h0)
+    (by
+      intro i hi0 hit
+      obtain ⟨d, hd, he⟩ := hget i hi0 hit
+      have := hi (i - 1) d hd
+      have e : i - 1 + 1 = i := by omega
+      rw [e] at this
+      show ((m0 :: ds.map fun d => d.m).getD i []).length ≤ _
+      rw [he]; exact this)
+  rw [← hbl, sumTo_lengths] at hsum
+  have hsum' : m0.length + (ds.map fun d => d.m.length).sum ≤ maxCompressedSizeMulti n t := by
+    simpa [List.map_map, Function.comp_def, hbl] using hsum
+  obtain ⟨out, hsp, hol, hbits⟩ := splice_sized cap m0 pre0 a0 b0 n0 D0 wsz0 wo0 ds hbytes hlong hparse hm0 hmark hok
+    (by omega)
+  refine ⟨out, ?_, by omega, hbits⟩
+  apply multi_ok_complete sp t jobs cap (m0 :: ds.map fun d => d.m) out ht hp hbl _ hsp
+  intro i b hb
+  cases i with
+  | zero => simp at hb; subst hb; exact hj0
+  | succ j =>
+    simp only [List.getElem?_cons_succ, List.getElem?_map, Option.map_eq_some_iff] at hb
+    obtain ⟨d, hd, rfl⟩ := hb
+    exact hji j d hd
 
-/-- non-vacuity of the size condition: the observed worst slacks (18, 10) satisfy it up to 6
-threads, (14, 8) for every thread count -/
-example : ∀ t, 1 ≤ t → t ≤ 6 → 18 + 10 * (t - 1) + 1 ≤ 22 + 8 * t := by intro t h1 h2; omega
-example : ∀ t, 1 ≤ t → 14 + 8 * (t - 1) + 1 ≤ 22 + 8 * t := by intro t h1; omega
+/-- the per-job size hypotheses discharged by C08 (w-header): every job output has the length of a
+never-flushed stream of C08's shape (`JobStream`: payload-independent head, meta-blocks obeying
+`Guard` — at most `len + 4` (`+ 5`) bytes per meta-block — and `BlocksOK`, empty last block) for
+its piece `xs i` under its parameters: job 0 the caller's with `appendable`, jobs ≥ 1
+additionally `catable`, no magic header.  `wmax` bounds the window field (4 for lgwin 16 and
+18..24 in the normal form, 14 always).  The slack constants `jobSlack` are PROVED from
+`streamStart_length` and `run_bound`; the arithmetic condition decides which thread counts are
+covered (examples below): this, not the concatenator, is what limits the theorem — with `Guard`
+alone a model stream may spend `len + 4` bytes on every meta-block, and then 16 jobs with 7- or
+14-bit window fields or a magic header do exceed the advertised bound. -/
+theorem multi_succeeds_when_sized_c08 (sp : Spawner) (t n cap wmax : Nat) (jobs : Nat → JobRes)
+    (p0 : BV.Header.Params) (xs : Nat → List Nat)
+    (m0 pre0 : List Nat) (a0 b0 n0 D0 wsz0 wo0 : Nat) (ds : List BV.Concat.MemberData)
+    (ht : 1 ≤ t) (hp : sp = .pool → t ≤ BV.Gen.MAX_THREADS) (hn : n < 2 ^ 54) (hn0 : 0 < n)
+    (hlen : ds.length + 1 = t) (hj0 : jobs 0 = .ok m0) (hji : ∀ i d, ds[i]? = some d → jobs (i + 1) = .ok d.m)
+    (hbytes : ∀ y, y ∈ m0 → y < 256) (hlong : BV.Concat.need (m0.headD 0) + 1 ≤ m0.length)
+    (hparse : BV.Concat.parseWindowSize (m0.take (BV.Concat.need (m0.headD 0))) = .ok (some (wsz0, wo0)))
+    (hm0 : m0 = pre0 ++ [a0, b0]) (hmark : BV.Concat.Marked (a0 + (b0 <<< 8)) n0 D0)
+    (hok : ∀ d, d ∈ ds → BV.Concat.MemberOK (wsz0 ||| (if wo0 = 14 then BV.Concat.LARGE_WINDOW_FLAG else 0)) d)
+    (hq : 2 ≤ p0.quality) (hh : p0.sizeHint < 2 ^ 35) (hw4 : wmax ≤ 4 ∨ 14 ≤ wmax)
+    (hW0 : (BV.Header.ensureInitialized true { p0 with appendable := true }).lastBytesBits ≤ wmax)
+    (hWi : (BV.Header.ensureInitialized true { p0 with appendable := true, catable := true, magicNumber := false }).lastBytesBits ≤ wmax)
+    (hx : ∀ i, i < t → (xs i).length = piece t n i)
+    (hs0 : JobStream { p0 with appendable := true } (xs 0) m0.length)
+    (hsi : ∀ i d, ds[i]? = some d →
+      JobStream { p0 with appendable := true, catable := true, magicNumber := false } (xs (i + 1)) d.m.length)
+    (hc : jobSlack wmax p0.magicNumber p0.catable + jobSlack wmax false true * (t - 1) ≤ 22 + 8 * t)
+    (hcap : maxCompressedSizeMulti n t ≤ cap) :
+    ∃ out, compressMulti sp t jobs cap = ok ⟨.ok out.length, out, true⟩ ∧ out.length ≤ maxCompressedSizeMulti n t := by
+  have hpl : ∀ i, i < t → piece t n i < 2 ^ 54 := by
+    intro i hi
+    have h1 : bnd t n (i + 1) ≤ n := bnd_le t n (i + 1) (by omega) (by omega)
+    unfold piece; omega
+  have e14 : (2 : Nat) ^ 14 = 16384 := by decide
+  obtain ⟨out, h1, h2, _⟩ := multi_succeeds_when_sized sp t n cap _ _ jobs m0 pre0 a0 b0 n0 D0 wsz0 wo0 ds ht hp
+    (by have : (2 : Nat) ^ 54 ≤ 2 ^ 62 := Nat.pow_le_pow_right (by decide) (by decide)
+        omega) hn0 hlen hj0 hji hbytes hlong hparse hm0 hmark hok hc
+    (by
+      have := jobStream_le { p0 with appendable := true } (xs 0) m0.length wmax hq hh
+        (by rw [hx 0 (by omega)]; exact hpl 0 (by omega)) hW0 hw4 hs0
+      rw [hx 0 (by omega), e14] at this
+      exact this)
+    (by
+      intro i d hd
+      have hit : i + 1 < t := by
+        have : i < ds.length := by
+          rcases Nat.lt_or_ge i ds.length with h | h
+          · exact h
+          · rw [List.getElem?_eq_none h] at hd; cases hd
+        omega
+      have := jobStream_le { p0 with appendable := true, catable := true, magicNumber := false } (xs (i + 1)) d.m.length wmax
+        hq hh (by rw [hx _ hit]; exact hpl _ hit) hWi hw4 (hsi i d hd)
+      rw [hx _ hit, e14] at this
+      exact this)
+    hcap
+  exact ⟨out, h1, h2⟩
+
+/-- which thread counts `Guard` + `BlocksOK` cover (non-vacuity of the arithmetic condition):
+normal-form window field of ≤ 4 bits (lgwin 16, 18..24) and no magic header — ALL of 1..16 (up
+to 25); with the magic header up to 13 (catable: 10); with a 7- or 14-bit window field
+(lgwin 10..15, 17, large window) up to 8, with the magic header up to 4. -/
+example : ∀ t, 1 ≤ t → t ≤ 16 → jobSlack 4 false false + jobSlack 4 false true * (t - 1) ≤ 22 + 8 * t := by
+  intro t h1 h2; simp only [jobSlack]; simp; omega
+example : ∀ t, 1 ≤ t → t ≤ 16 → jobSlack 4 false true + jobSlack 4 false true * (t - 1) ≤ 22 + 8 * t := by
+  intro t h1 h2; simp only [jobSlack]; simp; omega
+example : ∀ t, 1 ≤ t → t ≤ 13 → jobSlack 4 true false + jobSlack 4 false true * (t - 1) ≤ 22 + 8 * t := by
+  intro t h1 h2; simp only [jobSlack]; simp; omega
+example : ∀ t, 1 ≤ t → t ≤ 8 → jobSlack 14 false false + jobSlack 14 false true * (t - 1) ≤ 22 + 8 * t := by
+  intro t h1 h2; simp only [jobSlack]; simp; omega
+example : ∀ t, 1 ≤ t → t ≤ 4 → jobSlack 14 true false + jobSlack 14 false true * (t - 1) ≤ 22 + 8 * t := by
+  intro t h1 h2; simp only [jobSlack]; simp; omega
+/-- …and the condition does fail beyond: 16 jobs, 7-bit window fields -/
+example : ¬ (jobSlack 14 false false + jobSlack 14 false true * (16 - 1) ≤ 22 + 8 * 16) := by decide
 example : maxCompressedSizeMulti 5000 4 = 5054 ∧ maxCompressedSize 0 = 17 := by decide
+
+/-- non-vacuity of `multi_succeeds_when_sized`: job 0 = `8b 01 80 03 61 62 63 03` (lgwin 22, end
+marker on 8 data bits), job 1 = `3b 00 00 00 03` (`MemberOK`: 4 window bits, first meta-block
+header ends at bit 6, marker in its last two bytes), 8 input bytes over 2 threads, the pool
+spawner, a buffer of exactly the advertised bound -/
+def exD : BV.Concat.MemberData := ⟨[0x3b, 0x00, 0x00, 0x00, 0x03], 4, 6, 8, 0⟩
+
+theorem exD_ok : BV.Concat.MemberOK (22 ||| (if (4 : Nat) = 14 then BV.Concat.LARGE_WINDOW_FLAG else 0)) exD :=
+  { bytes := by decide
+    long := by decide
+    parse := ⟨22, by decide, by decide⟩
+    form := by decide
+    det := by decide
+    fit := by decide
+    room := by decide
+    marker := ⟨[0x3b, 0x00, 0x00], 0x00, 0x03, rfl, ⟨by decide, by decide⟩⟩ }
+
+example : ∃ out, compressMulti .pool 2 (fun i => if i = 0 then .ok [0x8b, 0x01, 0x80, 0x03, 0x61, 0x62, 0x63, 0x03] else .ok exD.m)
+      (maxCompressedSizeMulti 8 2) = ok ⟨.ok out.length, out, true⟩ ∧ out.length ≤ maxCompressedSizeMulti 8 2 := by
+  obtain ⟨out, h1, h2, _⟩ := multi_succeeds_when_sized .pool 2 8 (maxCompressedSizeMulti 8 2) 6 9
+    (fun i => if i = 0 then .ok [0x8b, 0x01, 0x80, 0x03, 0x61, 0x62, 0x63, 0x03] else .ok exD.m)
+    [0x8b, 0x01, 0x80, 0x03, 0x61, 0x62, 0x63, 0x03] [0x8b, 0x01, 0x80, 0x03, 0x61, 0x62] 0x63 0x03 8 0x63 22 4 [exD]
+    (by decide) (fun _ => by decide) (by decide) (by decide) rfl rfl
+    (by intro i d h; cases i with
+        | zero => simp at h; subst h; rfl
+        | succ j => simp at h)
+    (by decide) (by decide) (by decide) rfl ⟨by decide, by decide⟩
+    (by intro d hd; simp at hd; subst hd; exact exD_ok)
+    (by decide) (by decide)
+    (by intro i d h; cases i with
+        | zero => simp at h; subst h; decide
+        | succ j => simp at h)
+    (Nat.le_refl _)
+  exact ⟨out, h1, h2⟩
+
+/-! ## 8. the C ABI's thread-count clamp -/
+
+/-- `BrotliEncoderCompressMulti` (C13 `thread_count_clamp`): 0 threads are rejected before anything
+is touched, 1 thread takes the single-stream path, and `desired ≥ 2` calls `CompressMulti` with
+`t = min(desired, 16)` allocator slots — so the pool's `assert!(num_threads <= MAX_THREADS)` cannot
+fire (`multi_no_panic` applies for every spawner and every `desired`), and the bound the caller
+computes with `desired` (`BrotliEncoderMaxCompressedSizeMulti(n, desired)`) is at least the bound
+for the `t` threads actually used, so `multi_succeeds_when_sized` applies to the clamped call. -/
+theorem ffi_thread_clamp (desired : Nat) (hd : 2 ≤ desired) (n cap : Nat) (jobs : Nat → JobRes) (sp : Spawner)
+    (hc : Clean jobs (min desired 16)) :
+    BV.FFI.multiDispatch desired = .multi (min desired 16) ∧
+    (∃ r, compressMulti sp (min desired 16) jobs cap = ok r ∧ r.returned = true ∧ r.out.length ≤ cap) ∧
+    maxCompressedSizeMulti n (min desired 16) ≤ maxCompressedSizeMulti n desired := by
+  obtain ⟨hdis, h16, hle, _⟩ := (BV.Props.C13.thread_count_clamp desired).2.2 hd
+  refine ⟨hdis, multi_no_panic sp _ jobs cap (by omega) (fun _ => h16) hc, ?_⟩
+  unfold maxCompressedSizeMulti
+  omega
+
+example : BV.FFI.multiDispatch 0 = .reject ∧ BV.FFI.multiDispatch 1 = .single ∧ BV.FFI.multiDispatch 40 = .multi 16 := by
+  decide
 
 end BV.Props.C02
